@@ -115,19 +115,33 @@ func (w *World) postValidate(n *Node, snap *validateSnap, s consensus.State, b t
 		w.violate("C09", "validate-not-repeatable", fmt.Sprintf("%s: first verdict %q, second %q", ctx, errStr(verr), errStr(err2)))
 	}
 	// decoded copy (wire form: proofs go through the multiproof codec)
-	db, derr := decodeBlock(encodeBlock(b))
+	// The multiproof wire form is only defined for proofs that are valid for
+	// one state, so an invalid in-memory block need not survive it; compare
+	// verdicts only when the round trip reproduces the block exactly.
+	var db types.Block
+	var derr error
+	if p := guard(func() { db, derr = decodeBlock(encodeBlock(b)) }); p != "" {
+		if verr == nil {
+			w.violate("C10", "encode-valid-block-panic", ctx+": "+p)
+		}
+		return
+	}
 	if derr != nil {
-		w.violate("C11", "block-roundtrip-decode", fmt.Sprintf("%s: decode(encode(b)) failed: %v", ctx, derr))
-		return
-	}
-	var err3 error
-	dbs := copySupp(bs)
-	if p := guard(func() { err3 = consensus.ValidateBlock(s, db, dbs) }); p != "" {
-		w.violate("C10", "validate-panic", p)
-		return
-	}
-	if (err3 == nil) != (verr == nil) {
-		w.violate("C09", "validate-decoded-copy", fmt.Sprintf("%s: verdict %q on the original, %q on decode(encode(b))", ctx, errStr(verr), errStr(err3)))
+		if verr == nil {
+			w.violate("C11", "block-roundtrip-decode", fmt.Sprintf("%s: decode(encode(b)) of a valid block failed: %v", ctx, derr))
+		}
+	} else if bytes.Equal(fullBlockBytes(db), snap.block) {
+		var err3 error
+		dbs := copySupp(bs)
+		if p := guard(func() { err3 = consensus.ValidateBlock(s, db, dbs) }); p != "" {
+			w.violate("C10", "validate-panic", p)
+			return
+		}
+		if (err3 == nil) != (verr == nil) {
+			w.violate("C09", "validate-decoded-copy", fmt.Sprintf("%s: verdict %q on the original, %q on decode(encode(b))", ctx, errStr(verr), errStr(err3)))
+		}
+	} else if verr == nil {
+		w.violate("C18", "valid-block-multiproof-roundtrip", ctx+": a valid block does not survive decode(encode(b)) bit for bit")
 	}
 	// per-transaction validation against the evolving MidState must agree with
 	// the block verdict whenever the block-level checks pass.
